@@ -26,7 +26,7 @@ CLAUSE_TARGETS = ['yp_generator.YPPrologCompiler.' + f for f in (
     'find_clause_head_variable_arguments', 'compile_clause_head_variable_arguments', 'compile_arg_list_unification',
     'compile_unification', 'compile_expression', 'compile_list', 'compile_variable_declaration', 'get_argument_variable',
     'push_bound_vars', 'pop_bound_vars', 'filter_free_variables', 'get_free_variables', 'compile_free_variable_declarations',
-    'compile_function_body')]
+    'compile_function_body', 'nesting_depth')]
 
 
 def clause_deductive(rep, targets=None, literal_lemma=True):
